@@ -28,7 +28,7 @@ static void c04_policy_rounds(Buf *b, int rounds);
 static void scen_c01(int histories, int prefix, int stream) {
     Buf b = {0}, last = {0}; World w; memset(&w, 0, sizeof w);
     for (int h = 0; h < histories; h++) {
-        tr("hist %d", h); w_reset(&w); g_locality = 0;
+        tr("hist %d profile=%d", h, h % 3); w_reset(&w); g_locality = 0;
         tpm2_fresh(h % 3 == 0 ? NULL : (h % 3 == 1 ? PROFILE_DEFAULT_V1 : PROFILE_CUSTOM));
         int started = 1;
         if (h % 5 == 4) {   /* a stretch before TPM2_Startup */
